@@ -158,6 +158,16 @@ func TestAccounting(t *testing.T) {
 		runtime.GC()
 		defer debug.SetGCPercent(100)
 		hx.Reset(hx.Epoch + uint64(rapid.IntRange(0, 999).Draw(t, "t0")))
+		if rapid.IntRange(0, 399).Draw(t, "manyResources") == 137 { // (rapid favours the ends of a range: a middle value keeps this rare)
+			// a process that has already seen about base.DefaultMaxResourceAmount resource names (the library only
+			// warns beyond that amount): accounting of further resources must be as exact as for the first ones
+			n := int(base.DefaultMaxResourceAmount) + rapid.IntRange(-3, 3).Draw(t, "around")
+			for i := 0; i < n; i++ {
+				stat.GetOrCreateResourceNode(fmt.Sprintf("bulk-%d", i), base.ResTypeCommon)
+			}
+			c.Op("%d other resources already have statistic nodes", n)
+			c.Class("about-10000-resources-before")
+		}
 
 		rec := &recorder{keep: true, n: map[string]int{}}
 		custom := rapid.Bool().Draw(t, "customChain")
@@ -397,7 +407,7 @@ func TestAccounting(t *testing.T) {
 					t.Fatalf("late call on exited #%d produced callbacks %s", m.id, fmtCbs(cbs))
 				}
 			case op >= 6:
-				dt := uint64(rapid.SampledFrom([]int{1, 100, 499, 500, 501, 1000, 3000, 12000}).Draw(t, "dt"))
+				dt := uint64(rapid.SampledFrom([]int{1, 100, 499, 500, 501, 1000, 3000, 12000, 60001, 3600000}).Draw(t, "dt"))
 				hx.C.AddMs(dt)
 				c.Op("advance %d", dt)
 			}
